@@ -12,9 +12,11 @@ Impl layer (transliterations, Mathlib-free, generic over the number type `α`):
   * `Impl.mappedDataDict/…`    InversionImagingMapping.mapped_reconstructed_data_dict, `.mapped_reconstructed_data`
 Spec layer: `Spec.qform`, `Spec.IsKKT` (+ the executable `Spec.isKKTb`).
 
-The linear solves (numpy.linalg.solve, scipy.linalg.solve(assume_a="pos"), scipy cholesky / cho_solve and
-the rank-one Cholesky insert/delete bookkeeping of cholesky_funcs.py) are NOT modelled: they enter as the
-parameter `solve` with the contract "`solve M r = some x` ⇒ `M x = r`" (`Spec.SolveContract`).  The driver
+The linear solves enter `Impl.fnnls` as the parameter `solve` (numpy.linalg.solve and
+scipy.linalg.solve(assume_a="pos") of the unconstrained path stay contracts).  Since session 3 the
+positive-only path's own solver — `cholinsertlast` / `choldeleteindexes` / `_cholupdate` of
+cholesky_funcs.py and `cho_solve` as forward + back substitution — IS modelled (Model/Cholesky.lean) and
+proved to satisfy that contract given only `sqrt` (Props/C05.lean `chol_*`).  The contract is "`solve M r = some x` ⇒ `M x = r`" (`Spec.SolveContract`).  The driver
 instantiates it with `checkedSolve`: exact Gauss–Jordan elimination whose result is re-checked against
 the system before it is returned, so the contract holds of the instance by construction
 (Proofs/NNLS.lean `checkedSolve_contract`).
